@@ -84,7 +84,7 @@ CHECKS = {
          "Binding failure is recognised by the binder's message classes and the error's call stack; &key signatures and stdlib names are judged in one direction only; local functions that fail binding owe no report (notes/NOTES-C19.md).",
          "DESIGN.md 4/C19"),
  "C20": ("exploration", "reference-model runtime monitor over real sandboxes: an in-memory symlink-aware file-system model decides which file a location may serve; syscall-level monitor (strace) and the real elps run binary in the driver phase",
-         "Sandboxes built from a model tree (sibling directories sharing a name prefix, files with unique markers and probes inside and outside, symlinks to files and directories at first/middle/last component, chains, loops, a root that is a symlink) under a temp directory; every location string to depth 3-4 over names, '.', '..', link names, absolute/relative, doubled and trailing separators, in 7 loading contexts, through LoadSource, LoadFile, LoadFileContext and nested (load-file) for RelativeFileSystemLibrary (absolute, relative and symlinked roots), FSLibrary over MapFS, os.Root, os.DirFS and a recording wrapper; a file may be served only if the model-resolved real path is under the model-resolved root and then it must be that file's marker; nothing outside may be evaluated; the driver repeats a sub-list through the real `elps run --root-dir` binary and re-runs one worker under strace asserting no successful open of an outside file during refused loads.",
+         "Sandboxes built from a model tree (sibling directories sharing a name prefix, files with unique markers and probes inside and outside, symlinks to files and directories at first/middle/last component, chains, loops, a root that is a symlink) under a temp directory; every location string to depth 3-4 over names, '.', '..', link names, absolute/relative, doubled and trailing separators, in 7 loading contexts, through LoadSource, LoadFile, LoadFileContext and nested (load-file) for RelativeFileSystemLibrary (absolute, relative and symlinked roots), FSLibrary over MapFS, os.Root, os.DirFS and a recording wrapper; a file may be served only if the model-resolved real path is under the model-resolved root and then it must be that file's marker; nothing outside may be evaluated; interpreter loads also spell the top-level request differently from the true location, and run in hop contexts where a running file loads the loader file by a relative request through a host Go builtin calling env.LoadFile / env.LoadFileContext or through its own (load-file) (also for an unconfined RelativeFileSystemLibrary, judged for relative resolution only), and a recording library wrapper requires the loading context of every nested load to be the true location returned for the loading file; the driver repeats a sub-list through the real `elps run --root-dir` binary and re-runs one worker under strace asserting no successful open of an outside file during refused loads.",
          "Bare FSLibrary{os.DirFS} built by the harness itself is counted but not judged (os.DirFS documents that it follows links; the property's fs.FS sentence concerns paths asked of the file system); invalid names forwarded to the fs.FS are counted, only data served for them would be a violation (notes/NOTES-C20.md).",
          "DESIGN.md 4/C20"),
 }
